@@ -41,6 +41,16 @@ CHECKS = {
          'Every reachable state of small manual/semi-manual state graphs (NT 2-3 players both modes, cash all-in run-outs, stud, single draw, double-board PLO, tiny two-street games with two boards; both warning filters) x the full argument menu (wrong player, wrong phase, amounts around the bounds, non-positive counts, too many / unknown / in-play / duplicate cards, partial shows): can_* returns a bool without raising or mutating, verify_* agrees and is pure, the operation succeeds iff the query said yes, refusals are ValueError/UserWarning and leave every field equal, explicit indices are honoured.',
          'Arguments of the documented types only. Known defects (unknown cards accepted then failing in evaluation; showdown-muck cluster) are listed in known_findings.json and prune their branch.',
          'DESIGN.md section 4 C08'),
+ 'C09': ('model_checking',
+         'explicit-state BFS over pairs (automated State, un-automated twin) for all 2^11 automation subsets; lock-step comparison of appended records and all fields after every event',
+         'For all 2048 automation subsets x small configurations (NT heads-up cash with run-outs, NT 3-handed, tiny hi-lo double-board cash game; thorough adds stud, draw, double-board PLO, FL hold\'em) and every sequence of player decisions and manual steps in any player order, an un-automated twin that performs each automated step with default arguments as soon as it becomes available logs exactly the same operation records and has equal run-time fields after every event.',
+         'Paths on which the automated state itself raises are C07\'s; twin exceptions on histories with an explicit muck are not judged.',
+         'DESIGN.md section 4 C09'),
+ 'C15': ('model_checking',
+         'explicit-state BFS with deepcopy branching; lock-step log-replay twin fed through an explicit record->call map; per-record effect monitor; copy-independence and container-identity scan at every state; fresh replay of every terminal path',
+         'Every history of small NT/stud/razz/draw/badugi/PLO/tiny double-board configurations under automation in {none, all, three mixed}: (1) the records appended by each event, re-applied with their logged players/amounts/cards to a fresh un-automated state, reproduce the same records and equal fields; each record also matches the observed change of stacks, bets, cards and statuses; (2) a fresh state fed the same events equals the state reached through deepcopy branching; (3) operating on a deepcopy never changes the original, two copies respond identically, no mutable container is shared.',
+         'Deviation-bounded on the larger configurations (bound per family in evidence); warnings ignored.',
+         'DESIGN.md section 4 C15'),
 }
 
 def main():
